@@ -716,6 +716,15 @@ func (sc *SpecCtx) call(x *SX) Val {
 			return Val{Ty: specBool, T: lt(sArr(v.T), sc.allocBase())}
 		}
 		return Val{Ty: specBool, T: lt(v.T, sc.allocBase())}
+	case "live":
+		// live(x): x's reference is below the current allocation counter (so anything
+		// allocated from here on is a different object)
+		need(1)
+		v := sc.eval(args[0])
+		if v.T.Sort == SSlice {
+			return Val{Ty: specBool, T: lt(sArr(v.T), sc.st.alloc)}
+		}
+		return Val{Ty: specBool, T: lt(v.T, sc.st.alloc)}
 	case "sameArray":
 		need(2)
 		a, b := sc.eval(args[0]), sc.eval(args[1])
@@ -969,10 +978,10 @@ func (sc *SpecCtx) unchangedElems(x *SX, arg *SX) Val {
 
 func (sc *SpecCtx) unchangedOld(x *SX, arg *SX) Val {
 	vc := sc.vc
-	if arg.K != "id" && arg.K != "sel" {
+	if arg.K != "id" && arg.K != "sel" && arg.K != "str" {
 		sc.fail(x, "element type name expected")
 	}
-	name := arg.Op
+	name := arg.Op // a string literal names composite types, e.g. "*Vote"
 	if arg.K == "sel" {
 		name = arg.Args[0].Op + "." + arg.Op
 	}
